@@ -166,6 +166,7 @@ func TestC02(t *testing.T) {
 		"distinct = distinct (state,byte) pairs + distinct input streams")
 	rep.RuleAdd("Also: v2 payloads longer than the local definition with the correct checksum (delivered) and with the checksum of the known part only (not delivered); a long-lived reader whose dialect is replaced / re-initialised in place; twin dialects; nodes re-initialised with a changed dialect. Zero-padded frames carrying the checksum of the frame they were made from.")
 	rep.RuleAdd("Rounds 12-15: overlong valid frames, LEN=0 frames with the right checksum, zero-padded frames with a stale checksum, dialect tables swapped on live readers, freshly initialised tables shared by 8 readers.")
+	rep.RuleAdd("Rounds 16-17: runs of 300..1100 refused frames on one reader; an application that takes 0.5 ms over every event of a re-initialised node.")
 	rep.Assume("bitwise reference CRC anchored by the CRC-16/MCRF4XX check value 0x6F91")
 	rep.Assume("CRC collisions (damage that yields another reference-valid frame) are counted, not flagged")
 	seed := vh.Seed()
